@@ -128,6 +128,22 @@ def case_fold_basis(col, p):
         if not (np.allclose(np.asarray(ff.data), np.asarray(f.data), rtol=0, atol=1e-13) and np.array_equal(np.ma.getmaskarray(ff), np.ma.getmaskarray(f))):
             col.violation('C09:fold_unfold_fold', dict(p, masked=combo), {'mask_fold': np.ma.getmaskarray(f).astype(int),
                                                                           'mask_fuf': np.ma.getmaskarray(ff).astype(int)})
+    # unfolding a folded spectrum that fold() did not produce (read from another program's output, resampled, reweighted, or with an entry masked
+    # afterwards): the two members of an ambiguous pair may then hold different values and different masks; every entry of the folded half masked in turn
+    fo = RS.folded_out(shape)
+    denseF = dense.copy()
+    denseF[fo] = 0.0
+    for idx in [None] + [i for i in idxs[lo:hi] if not fo[i]]:
+        mask = fo.copy()
+        if idx is not None:
+            mask[idx] = True
+        ff = dadi.Spectrum(denseF.copy(), mask=mask.copy(), mask_corners=False, data_folded=True)
+        u = ff.unfold()
+        col.tick(transitions=1)
+        ud, um = RS.unfold(RS.fr_array(denseF), mask)
+        _cmp(col, 'C09:unfold_of_folded', dict(p, masked=idx), u, ud, _corner_conv(um), False)
+        if not np.array_equal(np.asarray(ff.data), denseF) or not np.array_equal(np.ma.getmaskarray(ff), mask):
+            col.violation('C09:unfold:input_modified', dict(p, masked=idx), '')
     # double fold / unfold of unfolded refused
     fs = dadi.Spectrum(dense.copy())
     try:
